@@ -1,3 +1,5 @@
+#[cfg(simple_dns_verif)]
+use simrt::shim_std as std;
 use simple_dns::{rdata::RData, Name, Packet, Question, ResourceRecord, CLASS, TYPE};
 
 use std::{
@@ -366,5 +368,24 @@ fn add_response_to_resources(
         for resource in resources {
             owned_resources.add_cached_resource(resource);
         }
+    }
+}
+
+#[cfg(simple_dns_verif)]
+pub(crate) fn verif_add_response_to_resources(
+    packet: Packet,
+    service_name: &Name<'_>,
+    full_name: &Name<'_>,
+    owned_resources: &mut ResourceRecordManager,
+    on_discovery: &mut Option<std::sync::mpsc::Sender<InstanceInformation>>,
+) {
+    add_response_to_resources(packet, service_name, full_name, owned_resources, on_discovery)
+}
+
+#[cfg(simple_dns_verif)]
+impl ServiceDiscovery {
+    #[allow(missing_docs)]
+    pub fn verif_store(&self) -> Arc<RwLock<ResourceRecordManager<'static>>> {
+        self.resource_manager.clone()
     }
 }
